@@ -17,8 +17,8 @@ import (
 	"time"
 
 	"github.com/tmpim/casket"
-	_ "github.com/tmpim/casket/caskethttp"
 	"github.com/tmpim/casket/casketfile"
+	_ "github.com/tmpim/casket/caskethttp"
 
 	"verifharness/hx"
 )
@@ -37,10 +37,11 @@ const c11Watchdog = 3 * time.Second
 // ---------------------------------------------------------------- c11.disp
 
 // c11.disp  tokens  ops
-//   tokens = comma list file:line:texthex
-//   ops    = string over  n(Next) a(NextArg) l(NextLine) b(NextBlock) B(NextBlockNesting(1)) r(RemainingArgs) 2(Args with 2 targets)
-//            v(Val) i(Line) f(File) N(Nesting)
-//   out    = per op its result, joined by ";" — booleans 0/1, strings hex, args comma-joined hex, and finally "|"+Val+":"+Line+":"+Nesting
+//
+//	tokens = comma list file:line:texthex
+//	ops    = string over  n(Next) a(NextArg) l(NextLine) b(NextBlock) B(NextBlockNesting(1)) r(RemainingArgs) 2(Args with 2 targets)
+//	         v(Val) i(Line) f(File) N(Nesting)
+//	out    = per op its result, joined by ";" — booleans 0/1, strings hex, args comma-joined hex, and finally "|"+Val+":"+Line+":"+Nesting
 func c11DispEval(f []string) (string, []string) {
 	if len(f) != 2 {
 		return "bad-case", nil
@@ -215,6 +216,7 @@ var c11Files = map[string]string{}
 
 func c11Setup() error {
 	log.SetOutput(io.Discard)
+	casket.Quiet = true // a start prints "Activating privacy features..." on stdout otherwise (it would end up in a replayed answer)
 	d, err := os.MkdirTemp("", "c11-")
 	if err != nil {
 		return err
@@ -309,47 +311,192 @@ var c11Pkg = map[string]string{
 	"timeouts": "caskethttp/timeouts", "tryfiles": "caskethttp/tryfiles", "websocket": "caskethttp/websocket", "tls": "caskettls", "on": "onevent",
 }
 
-// c11Vocab harvests the string literals of `case` clauses and of ==/!= comparisons in a package.
-func c11Vocab(repo, pkg string) []string {
-	seen := map[string]bool{}
+// c11Pkg parses the non-test files of one package directory.
+func c11ParsePkg(repo, pkg string) []*ast.File {
+	var out []*ast.File
 	files, _ := filepath.Glob(filepath.Join(repo, pkg, "*.go"))
+	sort.Strings(files)
 	for _, fn := range files {
 		if strings.HasSuffix(fn, "_test.go") {
 			continue
 		}
-		fset := token.NewFileSet()
-		af, err := parser.ParseFile(fset, fn, nil, 0)
-		if err != nil {
-			continue
+		if af, err := parser.ParseFile(token.NewFileSet(), fn, nil, 0); err == nil {
+			out = append(out, af)
 		}
-		add := func(e ast.Expr) {
-			if bl, ok := e.(*ast.BasicLit); ok && bl.Kind == token.STRING {
-				if s, err := strconv.Unquote(bl.Value); err == nil && s != "" && len(s) < 30 && !strings.ContainsAny(s, " \t\n\"{}") {
-					seen[s] = true
+	}
+	return out
+}
+
+func c11Word(s string) bool {
+	return s != "" && len(s) < 30 && !strings.ContainsAny(s, " \t\n\"{}")
+}
+
+// c11Consts: the package-level string constants (a keyword is often compared by name: `what == directiveRotateKeep`).
+func c11Consts(files []*ast.File) map[string]string {
+	out := map[string]string{}
+	for _, af := range files {
+		for _, d := range af.Decls {
+			gd, ok := d.(*ast.GenDecl)
+			if !ok || (gd.Tok != token.CONST && gd.Tok != token.VAR) {
+				continue
+			}
+			for _, sp := range gd.Specs {
+				vs, ok := sp.(*ast.ValueSpec)
+				if !ok {
+					continue
+				}
+				for i, n := range vs.Names {
+					if i < len(vs.Values) {
+						if bl, ok := vs.Values[i].(*ast.BasicLit); ok && bl.Kind == token.STRING {
+							if v, err := strconv.Unquote(bl.Value); err == nil {
+								out[n.Name] = v
+							}
+						}
+					}
 				}
 			}
 		}
-		ast.Inspect(af, func(n ast.Node) bool {
-			switch x := n.(type) {
-			case *ast.CaseClause:
-				for _, e := range x.List {
-					add(e)
+	}
+	return out
+}
+
+// c11Harvest adds the words a piece of code compares tokens with: string literals, and named string constants, in
+// `case` clauses and ==/!= comparisons and as map keys of composite literals (tables like SupportedProtocols).
+func c11Harvest(n ast.Node, consts map[string]string, seen map[string]bool) {
+	add := func(e ast.Expr) {
+		switch x := e.(type) {
+		case *ast.BasicLit:
+			if x.Kind == token.STRING {
+				if s, err := strconv.Unquote(x.Value); err == nil && c11Word(s) {
+					seen[s] = true
 				}
-			case *ast.BinaryExpr:
-				if x.Op == token.EQL || x.Op == token.NEQ {
-					add(x.X)
-					add(x.Y)
+			}
+		case *ast.Ident:
+			if v, ok := consts[x.Name]; ok && c11Word(v) {
+				seen[v] = true
+			}
+		}
+	}
+	ast.Inspect(n, func(n ast.Node) bool {
+		switch x := n.(type) {
+		case *ast.CaseClause:
+			for _, e := range x.List {
+				add(e)
+			}
+		case *ast.BinaryExpr:
+			if x.Op == token.EQL || x.Op == token.NEQ {
+				add(x.X)
+				add(x.Y)
+			}
+		case *ast.CompositeLit:
+			// keys of small tables (SupportedProtocols, supportedKeyTypes, …); big data tables (the MIME
+			// defaults) would only multiply the same case
+			if _, isMap := x.Type.(*ast.MapType); isMap && len(x.Elts) <= 40 {
+				for _, el := range x.Elts {
+					if kv, ok := el.(*ast.KeyValueExpr); ok {
+						add(kv.Key)
+					}
+				}
+			}
+		}
+		return true
+	})
+}
+
+const c11Module = "github.com/tmpim/casket"
+
+// c11Vocab returns the keyword vocabulary of a directive:
+//
+//	own    = words compared anywhere in the directive's own package,
+//	helper = words compared in the functions of OTHER casket packages that the directive's package calls
+//	         (pkg.Func(...)), and in the functions those call inside their own package (two levels) — e.g. the log
+//	         roller subdirectives rotate_size / rotate_keep / … that `errors` and `log` hand to httpserver.ParseRoller.
+func c11Vocab(repo, pkg string) (own, helper []string) {
+	files := c11ParsePkg(repo, pkg)
+	ownSeen, helpSeen := map[string]bool{}, map[string]bool{}
+	consts := c11Consts(files)
+	calls := map[string]map[string]bool{} // helper package dir -> called function names
+	for _, af := range files {
+		c11Harvest(af, consts, ownSeen)
+		imports := map[string]string{} // local name -> package dir
+		for _, im := range af.Imports {
+			path, _ := strconv.Unquote(im.Path.Value)
+			if path != c11Module && !strings.HasPrefix(path, c11Module+"/") {
+				continue
+			}
+			dir := strings.TrimPrefix(strings.TrimPrefix(path, c11Module), "/")
+			name := filepath.Base(path)
+			if im.Name != nil {
+				name = im.Name.Name
+			}
+			imports[name] = dir
+		}
+		ast.Inspect(af, func(n ast.Node) bool {
+			se, ok := n.(*ast.SelectorExpr)
+			if !ok {
+				return true
+			}
+			if id, ok := se.X.(*ast.Ident); ok {
+				if dir, ok := imports[id.Name]; ok && dir != pkg {
+					if calls[dir] == nil {
+						calls[dir] = map[string]bool{}
+					}
+					calls[dir][se.Sel.Name] = true
 				}
 			}
 			return true
 		})
 	}
-	var out []string
-	for s := range seen {
-		out = append(out, s)
+	for dir, names := range calls {
+		hfiles := c11ParsePkg(repo, dir)
+		hconsts := c11Consts(hfiles)
+		funcs := map[string]*ast.FuncDecl{}
+		for _, af := range hfiles {
+			for _, d := range af.Decls {
+				if fd, ok := d.(*ast.FuncDecl); ok && fd.Body != nil {
+					funcs[fd.Name.Name] = fd
+				}
+			}
+		}
+		done := map[string]bool{}
+		var visit func(name string, depth int)
+		visit = func(name string, depth int) {
+			fd := funcs[name]
+			if fd == nil || done[name] {
+				return
+			}
+			done[name] = true
+			c11Harvest(fd.Body, hconsts, helpSeen)
+			if depth == 0 {
+				return
+			}
+			ast.Inspect(fd.Body, func(n ast.Node) bool {
+				if ce, ok := n.(*ast.CallExpr); ok {
+					switch f := ce.Fun.(type) {
+					case *ast.Ident:
+						visit(f.Name, depth-1)
+					case *ast.SelectorExpr:
+						visit(f.Sel.Name, depth-1) // method of a type of the same package
+					}
+				}
+				return true
+			})
+		}
+		for n := range names {
+			visit(n, 1)
+		}
 	}
-	sort.Strings(out)
-	return out
+	for s := range ownSeen {
+		own = append(own, s)
+	}
+	for s := range helpSeen {
+		if !ownSeen[s] {
+			helper = append(helper, s)
+		}
+	}
+	sort.Strings(own)
+	sort.Strings(helper)
+	return own, helper
 }
 
 // lexical classes of an argument
@@ -414,7 +561,8 @@ func c11SetupGen(g *hx.Gen) {
 	r := g.Rng
 	all := append(append([]string{}, c11Core...), c11More...)
 	for _, d := range dirs {
-		vocab := c11Vocab(repo, c11Pkg[d])
+		own, helper := c11Vocab(repo, c11Pkg[d])
+		vocab := append(append([]string{}, own...), helper...)
 		emit := func(cfg string) {
 			if c11KeysOK(cfg) {
 				g.Case(d, hx.HS(cfg))
@@ -442,29 +590,40 @@ func c11SetupGen(g *hx.Gen) {
 			}
 		}
 		// sub-blocks: every keyword with 0..3 arguments, after 0..2 directive arguments
+		// sub-blocks: every keyword (the directive's own and its helpers') as a sub-block line with 0..3 values,
+		// well-formed ones included (numbers, sizes, durations, booleans, paths: some failures need a VALID line),
+		// after every argument shape of the directive: none, a path, a path and a word, and each keyword alone
+		// (`errors visible { … }`, `tls off { … }`)
 		kws := append(append([]string{}, vocab...), "a", "}", "{", "\"\"")
+		one := []string{"a", "\"\"", "0", "/p", "@T@/file.txt", "5", "1MB", "10s", "true"}
+		two := [][2]string{{"a", "b"}, {"\"\"", "5"}, {"/p", "0"}, {"0", "\"\""}, {"x", "@T@/file.txt"}, {"5", "10s"}, {"/p", "1MB"}}
 		for _, kw := range kws {
-			for n := 0; n <= 3; n++ {
-				for _, lead := range [][]string{{}, {"/"}, {"/", "a"}} {
-					variants := [][]string{}
-					switch n {
-					case 0:
-						variants = append(variants, []string{kw})
-					case 1:
-						for _, a := range []string{"a", "\"\"", "0", "/p", "@T@/file.txt"} {
-							variants = append(variants, []string{kw, a})
-						}
-					case 2:
-						for _, ab := range [][2]string{{"a", "b"}, {"\"\"", "5"}, {"/p", "0"}, {"0", "\"\""}, {"x", "@T@/file.txt"}} {
-							variants = append(variants, []string{kw, ab[0], ab[1]})
-						}
-					default:
-						variants = append(variants, []string{kw, "a", "b", "c"}, []string{kw, "\"\"", "\"\"", "\"\""})
-					}
-					for _, v := range variants {
-						emit(c11Config(d, lead, [][]string{v}, true, ""))
-					}
+			var variants [][]string
+			variants = append(variants, []string{kw})
+			for _, a := range one {
+				variants = append(variants, []string{kw, a})
+			}
+			for _, ab := range two {
+				variants = append(variants, []string{kw, ab[0], ab[1]})
+			}
+			variants = append(variants, []string{kw, "a", "b", "c"}, []string{kw, "\"\"", "\"\"", "\"\""})
+			for _, lead := range [][]string{{}, {"/"}, {"/", "a"}} {
+				for _, v := range variants {
+					emit(c11Config(d, lead, [][]string{v}, true, ""))
 				}
+			}
+			short := [][]string{{kw}, {kw, "5"}, {kw, "/p"}, {kw, "10s"}, {kw, "1MB"}, {kw, "on"}, {kw, "a", "5"}, {kw, "/p", "1MB"}}
+			for _, lk := range own {
+				for _, v := range short {
+					emit(c11Config(d, []string{lk}, [][]string{v}, true, ""))
+				}
+			}
+		}
+		// two sub-block lines: a helper keyword next to one of the directive's own
+		for _, hk := range helper {
+			for _, ok := range own {
+				emit(c11Config(d, nil, [][]string{{ok, "/p"}, {hk, "5"}}, true, ""))
+				emit(c11Config(d, nil, [][]string{{hk}, {ok, "a"}}, true, ""))
 			}
 		}
 		// malformed shapes
